@@ -927,8 +927,13 @@ class EventBus:
                     self._on_idle.set()
                 return None
 
-        except (asyncio.CancelledError, RuntimeError, QueueShutDown):
-            # Clean cancellation during shutdown or queue was shut down
+        except asyncio.CancelledError:
+            # The run loop task itself is being cancelled (stop(), or asyncio.run() tearing the loop down):
+            # stop polling and let the cancellation propagate so the task actually ends
+            get_next_queued_event.cancel()
+            raise
+        except (RuntimeError, QueueShutDown):
+            # Queue was shut down or the event loop is closing
             return None
 
     async def step(
